@@ -260,7 +260,7 @@ def oracle(seed, tier):
                     break
         if len(samples) < 2 and mv:
             samples.append({"world": json.dumps(w)[:500], "motions": [m[0] for m in mv], "queries": len(qs)})
-    return {"violations": viol[:20], "summary": {"cases": cases, "violations": len(viol), "nontrivial": nontriv, "skipped_near_boundary": skipped, "compared_by_motion": dist}, "samples": samples}
+    return {"violations": trim_violations(viol, 20), "summary": {"cases": cases, "violations": len(viol), "nontrivial": nontriv, "skipped_near_boundary": skipped, "compared_by_motion": dist}, "samples": samples}
 
 
 def correspondence(seed, tier):
